@@ -28,9 +28,9 @@ Definition same_outcome (a b : outcome) : bool :=
 
 Definition robust (script : list resp) (tail : resp) (e timeout : Z) : bool :=
   let s := sched_of script tail in
-  let f := fuel_for (timeout + 40) in
-  same_outcome (wait f s e (timeout - 30) 0 0) (wait f s e timeout 0 0) &&
-  same_outcome (wait f s e (timeout + 30) 0 0) (wait f s e timeout 0 0).
+  let f := fuel_for (timeout + 140) in
+  same_outcome (wait f s e (timeout - 100) 0 0) (wait f s e timeout 0 0) &&
+  same_outcome (wait f s e (timeout + 40) 0 0) (wait f s e timeout 0 0).
 
 (* S: the decidable specification on the implementation's own outcome, independent of [wait]:
    an acknowledgement must come from an exact 200 answer that no earlier answer preceded with the
